@@ -27,6 +27,7 @@ pub const DEF: PropDef = PropDef {
 };
 
 pub const SUBS: &[SubDef] = &[
+    SubDef { prop: "C12", name: "name_slices", oracle: name_slices },
     SubDef { prop: "C12", name: "rows", oracle: rows },
     SubDef { prop: "C12", name: "golden", oracle: golden },
     SubDef { prop: "C12", name: "ids", oracle: ids },
@@ -98,6 +99,17 @@ fn run(ctx: &Ctx) {
     let seed = ctx.seed;
     ctx.run_fn("names_volume", false, &format!("8 threads x {} generated unregistered names (4 shapes) through both by-name routes", per), move |obs| names_volume(obs, per, seed));
     ctx.run_tape("names", names, ctx.pick(200_000, 400_000), 64);
+    // the statement over a history of edits: the registry of a build made after the list was edited is the edited list
+    let edits = ctx.pick(1, 3);
+    ctx.run_fn("rebuild_after_edit", false, "scratch copy of the tree under test built with a probe program, then the list is edited (a generated private-use row appended, a row renamed, a row deleted) and the copy is built again in the same target directory: the probe must see the edited list", move |obs| {
+        for k in 0..edits {
+            rebuild_after_edit(obs, seed ^ (k << 20))?;
+        }
+        Ok(())
+    });
+    // queries that borrow the registry's own memory: every prefix, every suffix and sampled inner slices of every registered name as
+    // returned by the crate (callers tokenise and truncate the names they got from a suite and look the pieces up)
+    ctx.run_enum("name_slices", name_slices, true, "every prefix and suffix (and 8 inner slices) of the &str the registry itself returns for every suite, through both by-name routes", (0..nfile as u32).map(|i| vec![(i >> 8) as u8, i as u8]));
 }
 
 /// first column in which a registry entry differs from a row of the text file (also used by C15 for "its registry entry")
@@ -291,6 +303,210 @@ fn names_volume(obs: &mut Obs, per_thread: u64, seed: u64) -> R {
     }
     obs.nontrivial(per_thread);
     obs.sample(json!({"threads": 8, "unregistered_names_per_thread": per_thread, "shapes": prefixes.iter().map(|p| format!("{}<6-8 of A-Z0-9>", p)).collect::<Vec<_>>()}));
+    Ok(())
+}
+
+fn scratch_cargo(dir: &std::path::Path, target: &std::path::Path) -> Result<(), Fail> {
+    let out = output_with_progress(std::process::Command::new("cargo").args(["build", "-q", "--offline"]).current_dir(dir).env("CARGO_TARGET_DIR", target).env("CARGO_NET_OFFLINE", "true").env_remove("RUSTFLAGS"), 3600, true)
+        .map_err(|e| Fail { sig: "harness:cargo".into(), msg: format!("{}", e) })?;
+    if !out.status.success() {
+        return fail("harness:list-edit-probe-build", format!("the scratch copy does not build: {}", trunc(&String::from_utf8_lossy(&out.stderr))));
+    }
+    Ok(())
+}
+
+fn copy_if_different(from: &std::path::Path, to: &std::path::Path) -> std::io::Result<()> {
+    let new = std::fs::read(from)?;
+    if std::fs::read(to).map_or(true, |old| old != new) {
+        if let Some(p) = to.parent() {
+            std::fs::create_dir_all(p)?;
+        }
+        std::fs::write(to, new)?;
+    }
+    Ok(())
+}
+
+/// build -> edit scripts/tls-ciphersuites.txt -> build again (same target directory) -> ask a probe program linked against the copy
+fn rebuild_after_edit(obs: &mut Obs, seed: u64) -> R {
+    use std::path::PathBuf;
+    let io = |e: std::io::Error| Fail { sig: "harness:list-edit-io".into(), msg: format!("{}", e) };
+    let tb = tabs()?;
+    let verif = PathBuf::from(std::env::var("VERIF_DIR").unwrap_or_else(|_| "/verif".into()));
+    let scratch = verif.join("harness").join("target-c12edit");
+    let (src, dst, probe, target) = (PathBuf::from(repo_dir()), scratch.join("repo"), scratch.join("probe"), scratch.join("target"));
+    // 1. the scratch copy is made equal to the tree under test (what the build needs: manifest, build script, sources, the list)
+    let mut wanted: Vec<PathBuf> = vec!["Cargo.toml".into(), "build.rs".into(), "scripts/tls-ciphersuites.txt".into()];
+    for e in std::fs::read_dir(src.join("src")).map_err(io)? {
+        let e = e.map_err(io)?;
+        if e.path().extension().map_or(false, |x| x == "rs") {
+            wanted.push(PathBuf::from("src").join(e.file_name()));
+        }
+    }
+    for w in &wanted {
+        copy_if_different(&src.join(w), &dst.join(w)).map_err(io)?;
+    }
+    if let Ok(rd) = std::fs::read_dir(dst.join("src")) {
+        for e in rd.flatten() {
+            if !wanted.contains(&PathBuf::from("src").join(e.file_name())) {
+                let _ = std::fs::remove_file(e.path());
+            }
+        }
+    }
+    std::fs::create_dir_all(probe.join("src")).map_err(io)?;
+    let manifest = "[package]\nname = \"listprobe\"\nversion = \"0.1.0\"\nedition = \"2021\"\n\n[workspace]\n\n[dependencies]\ntls-parser = { path = \"../repo\" }\n";
+    let main_rs = r#"use tls_parser::*;
+fn main() {
+    for a in std::env::args().skip(1) {
+        if let Some(id) = a.strip_prefix("id:") {
+            let id = u16::from_str_radix(id, 16).unwrap();
+            match TlsCipherSuite::from_id(id) {
+                Some(s) => println!("id:{:04x}={}|{:?}|{:?}|{:?}|{:?}|{}|{:?}|{}|{:?}", id, s.name, s.kx, s.au, s.enc, s.enc_mode, s.enc_size, s.mac, s.mac_size, s.prf),
+                None => println!("id:{:04x}=none", id),
+            }
+        } else if let Some(n) = a.strip_prefix("name:") {
+            match TlsCipherSuite::from_name(n) {
+                Some(s) => println!("name:{}={:04x}", n, s.id.0),
+                None => println!("name:{}=none", n),
+            }
+        }
+    }
+    println!("count={}", CIPHERS.len());
+}
+"#;
+    let lock = std::fs::read_to_string(verif.join("harness/cfgdiff/Cargo.lock")).map_err(io)?.replace("name = \"cfgdiff\"", "name = \"listprobe\"");
+    for (f, c) in [("Cargo.toml", manifest.to_string()), ("src/main.rs", main_rs.to_string()), ("Cargo.lock", lock)] {
+        if std::fs::read_to_string(probe.join(f)).map_or(true, |old| old != c) {
+            std::fs::write(probe.join(f), c).map_err(io)?;
+        }
+    }
+    // 2. the edit, drawn from the seed: a new private-use row copied from a donor, a renamed row, a deleted row
+    let fillb = vmodel::tape::fill(seed ^ 0xC12E, 64);
+    let mut t = Tape::new(&fillb);
+    let n = tb.file.len();
+    let mut new_id = 0xff00u16 + t.u8() as u16;
+    while tb.file.iter().any(|r| r.id == new_id) || new_id == 0xffff {
+        new_id = 0xff00 + ((new_id + 1) & 0xff);
+    }
+    let donor = &tb.file[t.below(n)];
+    let mut renamed = &tb.file[t.below(n)];
+    let mut deleted = &tb.file[t.below(n)];
+    while renamed.id == donor.id {
+        renamed = &tb.file[t.below(n)];
+    }
+    while deleted.id == donor.id || deleted.id == renamed.id {
+        deleted = &tb.file[t.below(n)];
+    }
+    let new_name = format!("TLS_VERIF{:04X}_{}", t.u16(), donor.name.trim_start_matches("TLS_"));
+    let ren_name = format!("{}_V{}", renamed.name, t.below(100));
+    let list_path = dst.join("scripts/tls-ciphersuites.txt");
+    let original = std::fs::read_to_string(src.join("scripts/tls-ciphersuites.txt")).map_err(io)?;
+    let mut edited = String::new();
+    let mut donor_line = String::new();
+    for line in original.lines() {
+        let id = line.split(':').next().unwrap_or("");
+        if id.eq_ignore_ascii_case(&format!("{:04x}", deleted.id)) {
+            continue;
+        }
+        if id.eq_ignore_ascii_case(&format!("{:04x}", donor.id)) {
+            donor_line = line.to_string();
+        }
+        if id.eq_ignore_ascii_case(&format!("{:04x}", renamed.id)) {
+            let mut cols: Vec<&str> = line.split(':').collect();
+            cols[1] = &ren_name;
+            edited.push_str(&cols.join(":"));
+        } else {
+            edited.push_str(line);
+        }
+        edited.push('\n');
+    }
+    let mut cols: Vec<String> = donor_line.split(':').map(|x| x.to_string()).collect();
+    if cols.len() < 2 {
+        return fail("harness:list-edit-donor", "donor row not found in the list");
+    }
+    cols[0] = format!("{:04x}", new_id);
+    cols[1] = new_name.clone();
+    edited.push_str(&cols.join(":"));
+    edited.push('\n');
+    let args: Vec<String> = vec![
+        format!("id:{:04x}", new_id), format!("id:{:04x}", donor.id), format!("id:{:04x}", renamed.id), format!("id:{:04x}", deleted.id),
+        format!("name:{}", new_name), format!("name:{}", ren_name), format!("name:{}", renamed.name), format!("name:{}", deleted.name),
+    ];
+    let run_probe = || -> Result<Vec<String>, Fail> {
+        let o = std::process::Command::new(target.join("debug/listprobe")).args(&args).output().map_err(|e| Fail { sig: "harness:list-edit-probe-run".into(), msg: format!("{}", e) })?;
+        if !o.status.success() {
+            return fail("harness:list-edit-probe-run", format!("probe failed: {}", trunc(&String::from_utf8_lossy(&o.stderr))));
+        }
+        Ok(String::from_utf8_lossy(&o.stdout).lines().map(|l| l.to_string()).collect())
+    };
+    let val = |lines: &[String], key: &str| -> String { lines.iter().find_map(|l| l.strip_prefix(&format!("{}=", key)).map(|v| v.to_string())).unwrap_or_else(|| "<no answer>".into()) };
+    // 3. first build: the unedited list
+    scratch_cargo(&probe, &target)?;
+    let before = run_probe()?;
+    obs.evals_add(9);
+    ensure!(val(&before, "count") == n.to_string(), "C12:rebuild:before:count", "scratch build of the unedited tree: the registry holds {} suites, the list has {}", val(&before, "count"), n);
+    ensure!(val(&before, &format!("id:{:04x}", new_id)) == "none" && val(&before, &format!("name:{}", new_name)) == "none", "C12:rebuild:before:phantom", "the unedited registry already knows {:04x} / {}", new_id, new_name);
+    let donor_params = val(&before, &format!("id:{:04x}", donor.id));
+    // 4. edit, build again in the same target directory, ask again
+    std::fs::write(&list_path, &edited).map_err(io)?;
+    let built = scratch_cargo(&probe, &target);
+    let after = built.and_then(|_| run_probe());
+    // leave the scratch copy as the tree under test has it, whatever happened
+    let _ = std::fs::write(&list_path, &original);
+    let after = after?;
+    obs.evals_add(9);
+    let what = format!("after appending {:04x}:{} (copy of {:04x}), renaming {:04x} to {} and deleting {:04x} in scripts/tls-ciphersuites.txt and building again", new_id, new_name, donor.id, renamed.id, ren_name, deleted.id);
+    ensure!(val(&after, "count") == n.to_string(), "C12:rebuild:count", "{}: the registry holds {} suites, the edited list has {}", what, val(&after, "count"), n);
+    let got_new = val(&after, &format!("id:{:04x}", new_id));
+    let want_new = donor_params.replacen(&donor.name, &new_name, 1);
+    ensure!(got_new == want_new, "C12:rebuild:appended-row", "{}: lookup of the new id gives {}, expected {}", what, got_new, want_new);
+    ensure!(val(&after, &format!("name:{}", new_name)) == format!("{:04x}", new_id), "C12:rebuild:appended-name", "{}: lookup of the new name gives {}", what, val(&after, &format!("name:{}", new_name)));
+    ensure!(val(&after, &format!("name:{}", ren_name)) == format!("{:04x}", renamed.id) && val(&after, &format!("name:{}", renamed.name)) == "none", "C12:rebuild:renamed-row", "{}: the new name resolves to {}, the old name to {}", what, val(&after, &format!("name:{}", ren_name)), val(&after, &format!("name:{}", renamed.name)));
+    ensure!(val(&after, &format!("id:{:04x}", deleted.id)) == "none" && val(&after, &format!("name:{}", deleted.name)) == "none", "C12:rebuild:deleted-row", "{}: the deleted suite is still found: {}", what, val(&after, &format!("id:{:04x}", deleted.id)));
+    obs.nontrivial(seed);
+    obs.sample(json!({"appended": format!("{:04x}:{}", new_id, new_name), "copied_from": donor.name, "renamed": format!("{} -> {}", renamed.name, ren_name), "deleted": deleted.name, "registry_after": val(&after, "count")}));
+    Ok(())
+}
+
+fn name_slices(t: &mut Tape, obs: &mut Obs) -> R {
+    let i = t.u16() as usize;
+    let tb = tabs()?;
+    let r = match tb.file.get(i) {
+        Some(r) => r,
+        None => return Ok(()),
+    };
+    let suite = match guard("TlsCipherSuite::from_id", || TlsCipherSuite::from_id(r.id))? {
+        Some(s) => s,
+        None => return fail(format!("C12:name-slices:missing:{:04x}", r.id), format!("{} not in registry", r.name)),
+    };
+    let name: &str = suite.name;
+    let n = name.len();
+    let mut ranges: Vec<(usize, usize)> = (0..=n).map(|k| (0, k)).chain((0..=n).map(|k| (k, n))).collect();
+    for k in 0..8usize {
+        let a = (r.id as usize * 7 + k * 13) % (n + 1);
+        let b = a + (r.id as usize + k * 5) % (n - a + 1);
+        ranges.push((a, b));
+    }
+    for (a, b) in ranges {
+        if !name.is_char_boundary(a) || !name.is_char_boundary(b) {
+            continue;
+        }
+        let q: &str = &name[a..b];
+        let want = tb.file.iter().find(|x| x.name == q);
+        obs.evals_add(2);
+        let routes: [(&str, Option<&TlsCipherSuite>); 2] = [("from_name", guard("TlsCipherSuite::from_name", || TlsCipherSuite::from_name(q))?), ("TryFrom<&str>", guard("TryFrom<&str> for &TlsCipherSuite", || <&TlsCipherSuite>::try_from(q).ok())?)];
+        for (rn, got) in routes {
+            match (want, got) {
+                (None, None) => {}
+                (Some(w), Some(g)) => ensure!(g.id.0 == w.id, format!("C12:name-slices:{}:wrong", rn), "{}(slice {}..{} of the registry's own {:?} = {:?}) returned {:04x}, expected {:04x}", rn, a, b, name, q, g.id.0, w.id),
+                (None, Some(g)) => return fail(format!("C12:name-slices:{}:phantom", rn), format!("{}(slice {}..{} of the registry's own {:?} = {:?}) returned {} although no suite has that name", rn, a, b, name, q, g.name)),
+                (Some(w), None) => return fail(format!("C12:name-slices:{}:missing", rn), format!("{}(slice {}..{} of the registry's own {:?}) returned nothing, expected {:04x}", rn, a, b, name, w.id)),
+            }
+        }
+    }
+    obs.nontrivial(r.id as u64);
+    if obs.wants_sample() {
+        obs.sample(json!({"name": name, "slices": 2 * n + 10}));
+    }
     Ok(())
 }
 
